@@ -156,6 +156,61 @@ fn access_view_mut(ctx: &Ctx, what: &str, v: &mut TensorViewMut<i32>, base: *con
     }
 }
 
+/// Static-rank (NdLayout) layout operations have their own implementations. Every
+/// `permuted` / `permuted_mut` order over {0..=N}^N (repeated and out-of-range axes
+/// included) and every `split_at_mut(axis, mid)` is applied to a contiguous
+/// NdTensor; whatever is returned without a panic is accessed element by element
+/// and its addresses are compared with the allocation (and, for mutable views, with
+/// each other).
+fn static_rank_ops<const N: usize>(ctx: &Ctx, shape: &[usize], cnt: &Cnt) {
+    let n: usize = shape.iter().product();
+    let mut t = NdTensor::<i32, N>::from_data(nd::<N>(shape), (0..n as i32).collect::<Vec<_>>());
+    let base = t.data().map(|d| d.as_ptr()).unwrap_or(std::ptr::null());
+    for order in Odometer::new(&vec![N + 1; N]) {
+        let o: [usize; N] = nd::<N>(&order);
+        cnt.evals.fetch_add(2, Ordering::Relaxed);
+        if let Ok(v) = vp_core::catch(|| t.permuted(o)) {
+            cnt.accepted.fetch_add(1, Ordering::Relaxed);
+            access_view(ctx, "NdTensor::permuted", &v.as_dyn(), base, n, cnt);
+        }
+        let r = vp_core::catch(std::panic::AssertUnwindSafe(|| {
+            let mut v = t.permuted_mut(o);
+            access_view_mut(ctx, "NdTensor::permuted_mut", &mut v.as_dyn_mut(), base, n);
+        }));
+        if r.is_ok() {
+            cnt.accepted.fetch_add(1, Ordering::Relaxed);
+        }
+    }
+    for axis in 0..=N {
+        for mid in 0..=shape.get(axis).copied().unwrap_or(1) + 1 {
+            cnt.evals.fetch_add(1, Ordering::Relaxed);
+            let _ = vp_core::catch(std::panic::AssertUnwindSafe(|| {
+                let mut view = t.view_mut();
+                let (mut a, mut b) = view.split_at_mut(axis, mid);
+                // the two halves together must not hand out one element twice
+                let mut seen = std::collections::HashSet::new();
+                for half in [&mut a, &mut b] {
+                    let hs: Vec<usize> = half.shape().to_vec();
+                    let mut d = half.as_dyn_mut();
+                    for idx in indices(&hs) {
+                        if let Some(r) = d.get_mut(idx.as_slice()) {
+                            let off = (r as *mut i32 as isize - base as isize) / 4;
+                            if off < 0 || off as usize >= n || !seen.insert(off) {
+                                ctx.violation(
+                                    "NdTensorViewMut::split_at_mut: the halves reach an element outside the allocation or share an element".to_string(),
+                                    json!({"via": "split_at_mut", "shape": s(shape), "axis": axis, "mid": mid}),
+                                    format!("index {idx:?} offset {off}"),
+                                );
+                                return;
+                            }
+                        }
+                    }
+                }
+            }));
+        }
+    }
+}
+
 fn nd<const N: usize>(v: &[usize]) -> [usize; N] {
     v.try_into().unwrap()
 }
@@ -347,6 +402,23 @@ pub fn run(ctx: Ctx) -> ! {
             samples.push(|| json!({"shape": s(shape), "strides_alphabet": s(&STRIDES), "storage": format!("0..={max_storage}")}));
         }
     });
+    // Static-rank layout operations (NdLayout has its own implementations).
+    {
+        let mut sjobs: Vec<Vec<usize>> = Vec::new();
+        for r in 1..=3usize {
+            for c in Odometer::new(&vec![3; r]) {
+                sjobs.push(c.iter().map(|&i| i + 1).collect());
+            }
+        }
+        vp_core::par::for_each(sjobs.len(), |i| {
+            let sh = &sjobs[i];
+            match sh.len() {
+                1 => static_rank_ops::<1>(ctxr, sh, cntr),
+                2 => static_rank_ops::<2>(ctxr, sh, cntr),
+                _ => static_rank_ops::<3>(ctxr, sh, cntr),
+            }
+        });
+    }
     // Part 3: iteration histories of the mutable iterator kinds.
     let lays = c07::layout_family(&ctx);
     let mut units = Vec::new();
@@ -380,7 +452,7 @@ pub fn run(ctx: Ctx) -> ! {
         "rule": "constructor calls over the full box (shape sizes x strides x storage length); non-trivial = calls that returned a tensor (each then validated in u128 and, when valid and small, fully accessed)",
         "samples": samples.take(),
         "exhaustive": true,
-        "box": format!("rank 0..=3, sizes {:?}, strides {:?}, storage 0..={max_storage}; ctors: Tensor/NdTensor try_from_data, from_data, from_data_with_strides (owned,&mut), from_slice_with_strides, from_storage_and_layout (view, view_mut), zeros(overflowing), has_capacity", s(&SIZES), s(&STRIDES)),
+        "box": format!("rank 0..=3, sizes {:?}, strides {:?}, storage 0..={max_storage}; ctors: Tensor/NdTensor try_from_data, from_data, from_data_with_strides (owned,&mut), from_slice_with_strides, from_storage_and_layout (view, view_mut), zeros(overflowing), has_capacity; static rank 1..3 over sizes 1..3: NdTensor::permuted / permuted_mut with every order in {{0..=N}}^N, split_at_mut(axis 0..=N, mid 0..=n+1)", s(&SIZES), s(&STRIDES)),
         "constructor_calls": evals,
         "accepted": accepted,
         "accepted_valid_and_fully_accessed": accessed,
